@@ -341,3 +341,24 @@ def c11d(ctx):
     ca = [x for x in wlk.walk() if is_call(x, 'limit_sub_bbox')]
     ok = bool(ca) and [unparse(a) for a in ca[0].args] == ['cur_bbox', 'sub_bbox']
     ctx.check(ok, 'TileWalker._walk:limits-sub-box', 'the box handed down is limit_sub_bbox(cur_bbox, sub_bbox)', wlk)
+
+
+@rule('C11.e', floor=2)
+def c11e(ctx):
+    wk = ctx.fn(S + ':TileWalker._walk')
+    rec = [x for x in wk.walk() if is_call(x, 'self._walk')]
+    ok = bool(rec)
+    for x in rec:
+        cl = keyword(x, 'current_level', 2)
+        from ..flow import affine
+        a = affine(cl) if cl is not None else None
+        ok = ok and a is not None and a.get('current_level') == 1 and a.get('', 0) == 1 and unparse(x.args[0]) == 'sub_bbox' and unparse(x.args[1]) == 'levels'
+        ok = ok and unparse(keyword(x, 'all_subtiles', 3)) == 'all_subtiles'
+    ctx.check(ok, 'TileWalker._walk:recursion-arguments', 'the walk descends with the limited sub box, the remaining levels and current_level + 1', wk,
+              fail='the recursion does not go to the next level with the sub box of the sub tile')
+    defs = Defs(wk.node)
+    lv = [s for s in wk.walk() if isinstance(s, ast.Assign) and unparse(s.targets[0]) == 'levels']
+    ok = bool(lv) and all(unparse(s.value) == 'levels[1:]' for s in lv)
+    g = wk.cfg
+    ok = ok and all(g.guarded(g.node_of[id(s)], lambda at: at.op == 'in' and unparse(at.left) == 'current_level', True) for s in lv)
+    ctx.check(ok, 'TileWalker._walk:levels-consumed', 'a level is removed from the remaining levels exactly when it is the current one', wk)
